@@ -5,6 +5,7 @@ import TflModel.Driver.LatticeEval
 import TflModel.Driver.PwlProj
 import TflModel.Driver.PwlEval
 import TflModel.Driver.Kfl
+import TflModel.Driver.KflGrad
 import TflModel.Driver.Regularizers
 import TflModel.Driver.Ensembles
 import TflModel.Driver.Keypoints
@@ -24,6 +25,7 @@ def handlers : List (String × Handler) :=
   Tfl.Driver.PwlProj.handlers ++
   Tfl.Driver.PwlEval.handlers ++
   Tfl.Driver.Kfl.handlers ++
+  Tfl.Driver.KflGrad.handlers ++
   Tfl.Driver.Regularizers.handlers ++
   Tfl.Driver.Ensembles.handlers ++
   Tfl.Driver.Keypoints.handlers ++
